@@ -1,7 +1,7 @@
 (* C08 - differentiation yields the exact formal derivative, piece by piece. *)
 From Coq Require Import List ZArith Reals Lra Lia.
 From Flocq Require Import Core BinarySingleNaN.
-Require Import PP.FloatModel PP.Expr PP.FloatOps PP.FloatFacts PP.RealOps PP.Shapes PP.PolyFacts PP.Model.PwModel PP.Gen.Kernels.
+Require Import PP.FloatModel PP.Expr PP.FloatOps PP.FloatFacts PP.RealOps PP.Shapes PP.PolyFacts PP.Model.PwModel PP.Proofs.UlpProofs PP.Gen.Kernels.
 Import ListNotations.
 Local Open Scope R_scope.
 
@@ -37,6 +37,14 @@ Theorem C08_lane_rounded : forall (c : F) (b : Z), is_finite c = true -> is_fini
   noover (B2R c * B2R (of_bits b)) ->
   B2R (fmul c (of_bits b)) = rnd (B2R c * B2R (of_bits b)) /\ is_finite (fmul c (of_bits b)) = true.
 Proof. intros. now apply mul_correct. Qed.
+
+(* the power-of-two factors 2, 4, 8 are EXACT: no rounding at all, for every finite coefficient whose product does not overflow
+   (subnormal coefficients included) *)
+Theorem C08_pow2_exact : forall (c : F) (b e : Z),
+  (b, e) = (4611686018427387904, 1)%Z \/ (b, e) = (4616189618054758400, 2)%Z \/ (b, e) = (4620693217682128896, 3)%Z ->
+  is_finite c = true -> Rabs (B2R c * bpow radix2 e) < bpow radix2 1024 ->
+  B2R (fmul (of_bits b) c) = B2R c * bpow radix2 e /\ is_finite (fmul (of_bits b) c) = true.
+Proof. intros c b e H. rewrite (fmul_comm (of_bits b)). now apply fmul_pow2_lits. Qed.
 
 Ltac list_ring := repeat match goal with
   | |- _ :: _ = _ :: _ => apply f_equal2; [try (simpl; ring)|]
